@@ -360,6 +360,73 @@ def special_definitions(ctx, rng):
                                    "flagged": repr(res[0][1])[:400], "interpreted": repr(res[2][1])[:400], "workload": "special-definitions"})
                 else:
                     ctx.event("special_definitions_checked")
+    # blocks made of char members only (the generated reader slices them out of one buffer): every prefix of the input
+    for text, names in (("struct tag { char magic[4]; char version; };\nstruct rec { uint16 id; tag t; };\nstruct one { char c; };\n"
+                         "struct nine { char a[3]; char b; char c[5]; };\nstruct ten { char a[10]; };\nstruct dyn { uint8 n; char s[n]; char k[2]; char e; };",
+                         ("tag", "rec", "one", "nine", "ten", "dyn")),):
+        for endian in "<>":
+            for align in (False, True):
+                data = bytes([3]) + bytes(rng.randrange(0x41, 0x5B) for _ in range(15))
+                res = []
+                for compiled in (True, False):
+                    try:
+                        cs = lib.load(text, endian, align, compiled)
+                        res.append([[outcome(getattr(cs, n), data[:k]) for k in range(len(data))] for n in names])
+                    except Exception as e:  # noqa: BLE001
+                        res.append(("load", type(e).__name__))
+                ctx.evaluation(("char-only-blocks", endian, align))
+                ctx.cell("special:char-only-blocks-at-every-cut")
+                bad = None
+                if res[0] != res[1] or res[0][0] == "load":
+                    bad = "readers-differ-on-a-cut-char-only-block"
+                else:
+                    # and whatever a cut input returns is what the full input returns
+                    for per_name in res[0]:
+                        full = per_name[-1]
+                        for k, r in enumerate(per_name):
+                            if r[0] == "ok" and full[0] == "ok" and r[1] != full[1]:   # (the position may lie in skipped tail padding)
+                                bad = "cut-input-returns-another-value-than-the-full-input"
+                if bad:
+                    ctx.violation("special", bad, {"text": text, "endian": endian, "align": align, "data": data.hex(),
+                                                  "compiled": repr(res[0])[:500], "interpreted": repr(res[1])[:500], "workload": "special-definitions"})
+                else:
+                    ctx.event("special_definitions_checked")
+    # pointer members whose pointer type is not struct-packed (uint24 / uint48 / uint128 ...), alone and in fixed arrays: the
+    # pointers of both readers read their targets from the parsed stream
+    dtexts = ("struct T { uint16 *q[2]; uint16 *p; uint8 k; uint16 *r[1][2]; };",
+              "struct T { uint16 *q[3]; uint8 k; uint16 *r[2]; };",      # arrays of pointers only (no member makes the structure fall back)
+              "struct T { uint16 *q[1]; uint16 *q2[2]; uint8 k; uint16 *r[1][2]; };")
+    for dtext in dtexts:
+        for ptr in ("uint24", "uint48", "uint128", "int24", "uint16", "uint64"):
+            for endian in "<>":
+                w = gen.ALL_INTS[ptr][0]
+                bo = "little" if endian == "<" else "big"
+                base = 5 * w + 1
+                addrs = [base + 2 * i for i in range(5)]
+                data = b"".join(a.to_bytes(w, bo) for a in addrs[:3]) + b"\x07" + b"".join(a.to_bytes(w, bo) for a in addrs[3:]) + bytes(rng.randrange(1, 256) for _ in range(12))
+                res = []
+                for compiled in (True, False):
+                    try:
+                        cs = lib.load(dtext, endian, False, compiled, ptr)
+                        o = cs.T(io.BytesIO(data))
+                        ptrs = []
+                        for f in cs.T.__fields__:
+                            v = getattr(o, f._name)
+                            if f._name != "k":
+                                flat = v if isinstance(v, list) else [v]
+                                ptrs += [y for x in flat for y in (x if isinstance(x, list) else [x])]
+                        res.append(([int(x) for x in ptrs], [int(x.dereference()) for x in ptrs], int(o.k)))
+                    except Exception as e:  # noqa: BLE001
+                        res.append(("err", type(e).__name__, str(e)[:80]))
+                want = (addrs, [int.from_bytes(data[a:a + 2], bo) for a in addrs], 7)
+                ctx.evaluation(("odd-pointer-dereference", dtext, ptr, endian))
+                ctx.cell("special:dereference-with-odd-pointer-types")
+                if res[0] != res[1] or res[0] != want:
+                    ctx.violation("special", "readers-differ-in-what-a-pointer-dereferences-to",
+                                  {"text": dtext, "ptr": ptr, "endian": endian, "data": data.hex(), "compiled": repr(res[0])[:300],
+                                   "interpreted": repr(res[1])[:300], "want": repr(want), "workload": "special-definitions"})
+                else:
+                    ctx.event("special_definitions_checked")
     # pointer types that are signed or not struct-packed: whatever a pointer's value is then, it is the same one in
     # both readers (scalars, fixed and null-terminated arrays, behind a dynamic field)
     ptext = "struct T { uint8 lead; uint16 *p; uint8 x; uint16 *q[2]; uint8 n; char s[n & 3]; uint16 *r; uint16 *z[]; uint8 t; };"
